@@ -58,6 +58,7 @@ type fnInfo struct {
 	nregs  int
 	consts map[*ssa.Const]value
 	pkg    string
+	allocFrame bool
 }
 
 var fnInfos sync.Map // *ssa.Function -> *fnInfo
@@ -86,12 +87,16 @@ func getFnInfo(fn *ssa.Function) *fnInfo {
 		}
 	}
 	fi.nregs = n
+	fi.allocFrame = strings.Contains(fn.String(), "verifTrackAlloc")
 	if fn.Pkg != nil {
 		fi.pkg = fn.Pkg.Pkg.Path()
 	} else if fn.Origin() != nil && fn.Origin().Pkg != nil {
 		fi.pkg = fn.Origin().Pkg.Pkg.Path()
 	} else if p := fn.Parent(); p != nil {
 		fi.pkg = getFnInfo(p).pkg
+	}
+	if strings.HasSuffix(fi.pkg, "/mempool") {
+		fi.allocFrame = true
 	}
 	v, _ := fnInfos.LoadOrStore(fn, fi)
 	return v.(*fnInfo)
@@ -356,6 +361,10 @@ func (th *thread) callSSA(caller *frame, fn *ssa.Function, args []value, env []v
 	fr.block = fn.Blocks[0]
 	saved := th.fr
 	th.fr = fr
+	if info.allocFrame {
+		m.allocDepth++
+		defer func() { m.allocDepth-- }()
+	}
 	for fr.block != nil {
 		th.runFrame(fr)
 	}
@@ -726,7 +735,21 @@ func (m *machine) fillZero(elems []value, et types.Type) {
 
 func (m *machine) checkPoison(o *obj, what string) {
 	if o != nil && o.poisoned && !m.inAllocator() {
-		m.violation("use-after-free", fmt.Sprintf("%s of freed pooled buffer obj%d (%s) at %s", what, o.id, o.what, m.curPos()))
+		site := "?"
+		if th := m.cur; th != nil {
+			for fr := th.fr; fr != nil; fr = fr.caller {
+				n := fr.fn.String()
+				if strings.Contains(n, "verif") || strings.Contains(n, "/mempool") {
+					continue
+				}
+				if i := strings.LastIndex(n, "/"); i >= 0 {
+					n = n[i+1:]
+				}
+				site = strings.NewReplacer("(", "", ")", "", "*", "").Replace(n)
+				break
+			}
+		}
+		m.violationWith("use-after-free", what+" in "+site, fmt.Sprintf("%s of freed pooled buffer obj%d (%s) at %s", what, o.id, o.what, m.curPos()), m.model)
 	}
 }
 
